@@ -310,7 +310,7 @@ func (h *HarnessRun) runPath(sv *Solver, prefix []decision) (it *Interp) {
 	sv.PathBegin(ts)
 	it = &Interp{prog: h.prog, h: h, ts: ts, solver: sv, prefix: prefix,
 		globals: map[*ssa.Global]*Cell{}, pkgInit: map[*ssa.Package]int{}, funcs: map[string]int{},
-		covers: map[string]bool{}, stubsUsed: map[string]bool{}, ghost: map[string]Value{}, bypass: map[string]int{},
+		covers: map[string]bool{}, stubsUsed: map[string]bool{}, ghost: map[string]Value{}, bypass: map[string]int{}, digests: map[int][]*Term{},
 		mapOrder: h.cfg.MapOrder}
 	end := "done"
 	msg := ""
@@ -347,7 +347,11 @@ func (h *HarnessRun) runPath(sv *Solver, prefix []decision) (it *Interp) {
 					}()
 				default:
 					end = "internal"
-					msg = fmt.Sprintf("%v\n%s", r, debug.Stack())
+					st := strings.Split(string(debug.Stack()), "\n")
+					if len(st) > 24 {
+						st = st[:24]
+					}
+					msg = fmt.Sprintf("%v\ninterpreted stack: %s\n%s", r, it.callStack(), strings.Join(st, "\n"))
 				}
 			}
 		}()
